@@ -4,6 +4,7 @@ import (
 	"context"
 	"fmt"
 	"sort"
+	"strings"
 	"time"
 
 	abci "github.com/cometbft/cometbft/abci/types"
@@ -389,10 +390,16 @@ func feasibleKinds(n *Node, v *view, a int) []string {
 		"undelegate": len(dels) > 0, "withdrawReward": len(dels) > 0, "valsetDelegate": pref, "valsetWithdraw": pref,
 		"govVote": len(v.props) > 0, "exitPool": hasShares, "addToGauge": len(v.gauges) > 0,
 	}
+	// kinds whose precondition is a state that few histories reach (a delegated lock, a validator-set preference, a
+	// staking delegation, an open proposal) get three times their weight while it holds
+	rare := map[string]bool{"sfDelegate": true, "sfUndelegate": true, "sfUnbond": true, "undelegate": true, "valsetDelegate": true, "valsetWithdraw": true, "govVote": true, "exitPool": true}
 	var out []string
 	for _, k := range txKinds {
 		if ok, listed := need[k]; !listed || ok {
 			out = append(out, k)
+			if listed && rare[k] {
+				out = append(out, k, k)
+			}
 		}
 	}
 	return out
@@ -671,9 +678,25 @@ func GenMsg(rt *rapid.T, n *Node, v *view, a int) (kind string, msg sdk.Msg, ok 
 				l = sl
 			}
 			return kind, sftypes.NewMsgSuperfluidDelegate(me, l.ID, va), true
-		case "sfUndelegate":
-			return kind, sftypes.NewMsgSuperfluidUndelegate(me, l.ID), true
-		default:
+		case "sfUndelegate", "sfUnbond":
+			// a lock that carries the matching marker: staking (superbonding) for an undelegation, unstaking
+			// (superunbonding) for the unbonding of the lock itself
+			want := "/superbonding/"
+			if kind == "sfUnbond" {
+				want = "/superunbonding/"
+			}
+			var cands []lockuptypes.PeriodLock
+			for _, c := range locks {
+				if sl, found, err := app.LockupKeeper.GetSyntheticLockupByUnderlyingLockId(ctx, c.ID); err == nil && found && strings.Contains(sl.SynthDenom, want) {
+					cands = append(cands, c)
+				}
+			}
+			if sl, ok := pick(rt, "sfMarkedLock", cands); ok {
+				l = sl
+			}
+			if kind == "sfUndelegate" {
+				return kind, sftypes.NewMsgSuperfluidUndelegate(me, l.ID), true
+			}
 			return kind, sftypes.NewMsgSuperfluidUnbondLock(me, l.ID), true
 		}
 	case "sfLockAndDelegate":
